@@ -17,7 +17,7 @@ import (
 	"golang.org/x/tools/go/ssa"
 )
 
-const vfsCap = 8192
+const vfsCap = 1 << 16
 
 type vfsFile struct {
 	obj *Object
@@ -364,4 +364,44 @@ func init() {
 		ex.nextMap++
 		return &ChanObj{id: ex.nextMap, cap: 1}
 	}, "time.After", "time.Tick")
+	// positional I/O (bolt)
+	reg(func(ex *Exec, fn *ssa.Function, args []Value, caller *frame) Value {
+		h := ex.vfsHandleOf(args[0])
+		p, n := sliceBytes(ex, args[1])
+		off := int64(ex.concretize(args[2].(*Term)))
+		if h == nil || h.f == nil {
+			panic(pathEnd{stOutOfModel, "WriteAt on a file handle outside the in-memory file system"})
+		}
+		ex.vfsWriteAt(h.f, off, p, n)
+		return Tuple{c64(n), Iface{}}
+	}, "(*os.File).WriteAt")
+	reg(func(ex *Exec, fn *ssa.Function, args []Value, caller *frame) Value {
+		h := ex.vfsHandleOf(args[0])
+		p, n := sliceBytes(ex, args[1])
+		off := int64(ex.concretize(args[2].(*Term)))
+		if h == nil || h.f == nil {
+			panic(pathEnd{stOutOfModel, "ReadAt on a file handle outside the in-memory file system"})
+		}
+		m := h.f.n - off
+		if m > n {
+			m = n
+		}
+		if m < 0 {
+			m = 0
+		}
+		if m > 0 {
+			ex.memmove(p, Ptr{h.f.obj, c64(off)}, m)
+		}
+		if m < n {
+			eof := ex.load(ex.prog.byPath["io"].Var("EOF").Type().(*types.Pointer).Elem(), Ptr{ex.prog.globalObj(ex, ex.prog.byPath["io"].Var("EOF")), zero64})
+			return Tuple{c64(m), eof}
+		}
+		return Tuple{c64(m), Iface{}}
+	}, "(*os.File).ReadAt")
+	reg(func(ex *Exec, fn *ssa.Function, args []Value, caller *frame) Value {
+		return c64(4096)
+	}, "os.Getpagesize", "syscall.Getpagesize")
+	reg(func(ex *Exec, fn *ssa.Function, args []Value, caller *frame) Value {
+		return Iface{}
+	}, "syscall.Fdatasync", "syscall.Fsync", "github.com/boltdb/bolt.madvise")
 }
